@@ -1,6 +1,6 @@
 """C01 — partial: literal codec (K1), clause meaning vs. watches (K2), watch replacement (K3)."""
 from common import Harness, source_lines
-from kani_prop import ARENA_SCALE, Attach, run_incrate, replay_incrate
+from kani_prop import ARENA_SCALE, Attach, Group, run_incrate, replay_incrate
 from cert_prop import CERT_ASSUMPTIONS, cert_extra, is_cert_replay, replay_cert
 
 PROP = "C01"
@@ -60,6 +60,27 @@ def harnesses(tier):
     return hs
 
 
+SHIMS = ("ahash", "elsa", "indexmap", "futures", "event-listener", "bitvec", "tracing")
+K7 = "k7_requires.rs"
+ATTACH_K7 = [Attach(K7, HOST, "verif_k7")]
+
+
+def harnesses_k7(tier):
+    shapes = [("k7_requires_1", "1 candidate"), ("k7_requires_2_union", "2 candidates in 2 version sets (union key)"),
+              ("k7_requires_3_union_2_1", "3 candidates grouped [2,1] (union key)"),
+              ("k7_requires_3_union_with_empty_member", "3 candidates grouped [1,0,2] (union with an empty member)")]
+    if tier == "thorough":
+        shapes += [("k7_requires_2_one_set", "2 candidates in one version set"), ("k7_requires_3_one_set", "3 candidates in one version set"),
+                   ("k7_requires_3_union_1_1_1", "3 candidates grouped [1,1,1]")]
+    hs = []
+    for name, what in shapes:
+        hs.append(H(name, K7, bounds="Requires(parent=var 1, requirement) with %s = variables 2..; a second unrelated entry in requirement_to_sorted_candidates; visit_literals order and polarity; next_unwatched_literal for any assignment of variables 1..4 (unassigned / true@l / false@l, l <= 1000), any two distinct watched positions, either watch index" % what,
+                    symbolic=["assignment (3^4 x levels)", "watched positions", "watch index"], enumerated=["candidate grouping: " + what],
+                    min_covers=1, timeout=1500, mem_gb=20, group="k7"))
+    hs.append(H("k7_twin_must_fail", K7, bounds="vacuity twin", expect="fail", timeout=900, group="k7"))
+    return hs
+
+
 def functions():
     c = "src/solver/clause.rs"
     return [
@@ -81,7 +102,8 @@ ASSUMPTIONS = [
     "resolvo is compiled with Kani's nightly and `-A dangerous_implicit_autorefs` (5 lint hits in arena.rs); no source change",
     "stub: ahash::RandomState::new -> RandomState::with_seeds(1,2,3,4) (only used to build empty FrozenMaps that are passed but never indexed)",
     "K3 precondition: the watch being moved evaluates to false (what propagate() guarantees); membership/non-falseness are asserted without it",
-    "Requires clauses (populated FrozenMap) are outside the claim; so are Encoder, propagate, run_sat, analyze (hash containers, DESIGN R1)",
+    "K7 (Requires clauses): built in a second scratch copy against the dependency shims (DESIGN 8.1: elsa::FrozenMap is an insert-only association list with elsa's insert/get/Index contract) - a populated requirement_to_sorted_candidates does not finish with the real elsa/hashbrown; candidate grouping enumerated, assignment / watches symbolic",
+    "Encoder, propagate, run_sat, analyze are outside the Kani part (DESIGN 8.1, P27-P29); they are covered per universe by the certificate engine",
     "source scaling in the scratch copy: arena.rs CHUNK_SIZE 128 -> 4 (the learnt-clause arena's 128-slot chunk of Vec<Literal> makes every harness 10-50x slower; the code is parametric in the constant)",
     "containers are leaked (mem::forget) at the end of each harness: their drop glue is not part of the claim",
     "learnt clauses have distinct first/last variables (analyze() dedups through its `seen` set) - assumed in K2",
@@ -100,10 +122,14 @@ CERT_RULE = ("; certificate engine: one evaluation = one z3 query answered; a un
 def run(tier, seed, only):
     return run_incrate(PROP, tier, seed, only, ATTACH, harnesses(tier), functions() + CERT_FUNCTIONS,
                        ASSUMPTIONS + CERT_ASSUMPTIONS + CERT_NOTE, ["ahash::RandomState::new"], RULE + CERT_RULE,
-                       scalings=[ARENA_SCALE], extra=None if only else cert_extra(PROP, tier, seed))
+                       scalings=[ARENA_SCALE], extra=None if only else cert_extra(PROP, tier, seed),
+                       groups=[Group(ATTACH_K7, harnesses_k7(tier), scalings=[ARENA_SCALE], shims=SHIMS, jobs=6)])
 
 
 def replay(path):
     if is_cert_replay(path):
         return replay_cert(PROP, path)
+    import json
+    if str(json.load(open(path)).get("harness", "")).startswith("k7_"):
+        return replay_incrate(PROP, path, ATTACH_K7, scalings=[ARENA_SCALE], shims=SHIMS)
     return replay_incrate(PROP, path, ATTACH, scalings=[ARENA_SCALE])
